@@ -398,7 +398,7 @@ def h_option_flatten(pattern, deep):
 
 def jobs_for(prop, tier):
     if prop == 'C01':
-        return jobs_c01(tier) + jobs_carry(tier) + jobs_numpy_getitem(tier)
+        return jobs_c01(tier) + jobs_carry(tier) + jobs_numpy_getitem(tier) + jobs_option_getitem(tier)
     if prop == 'C05':
         return jobs_c05(tier) + [j for j in jobs_option_below(tier) if j[1][3] in ('num', 'localindex')] + jobs_flatten(tier)
     if prop == 'C09':
@@ -2375,3 +2375,103 @@ def h_depth_queries(cls, dims, variant, is_list):
 
 def jobs_c17(tier):
     return [(h_depth_queries, a, 300) for a in DEPTH_NODES]
+
+
+# ------------------------------------------------------------------------------------------------ C01: a slice item passing through an option / indexed node
+@guard
+def h_option_getitem(cls, pattern, variant, headkind):
+    """getitem_next(head, tail, advanced) on an option-type or indexed node: the node does not consume the slice item - the content of the valid
+    entries is handed the same item, and the result keeps None exactly at the missing positions, every valid position i holding what the
+    content answered for its own element"""
+    pattern = tuple(map(bool, pattern))
+    n = len(pattern)
+    nc = NodeCtx(['IA', 'BMA', 'BIT', 'UMA', 'IDX', 'CNT', 'UTL', 'KD', 'IDS', 'SLC'], [], unwind=max(10, 2 * n + 10))
+    F = z3.Function('F_getitem', z3.BitVecSort(64), z3.BitVecSort(64))
+    seen = []
+
+    def s_getitem_next(eng, fr, ins, st, name, argv):
+        sret, selfp, head = argv[0], argv[1], argv[2]
+        hp = st.mem.o[head.obj].cells.get(head.off)
+        nm, info = nc.content_info(selfp, st, eng)
+        seen.append((st.pc, hp[0] if hp else None, argv[3], argv[4]))
+        k = z3.BitVec('k!', 64)
+        nc._ret(st, sret, nc.fresh_content(eng, st, info['length'], z3.Lambda([k], F(z3.Select(info['atoms'], k))), derived='getitem'))
+        return None
+    nc.m.eng.stubs['vf$slot%d' % nc.slot('12getitem_nextERKSt10shared_ptrINS_9SliceItemEERKNS_5SliceERKNS_7IndexOfIlEE')] = s_getitem_next
+    if cls in ('IndexedOptionArray64', 'IndexedArray64'):
+        this, idx = build_indexed(nc, cls, pattern, nc.content0, nc.lencontent, 'node')
+        atom = lambda i: idx[i]
+        short = INDEXED[cls][0][1:-1] if False else ('14IndexedArrayOfIlLb%dEE' % (1 if cls == 'IndexedOptionArray64' else 0))
+    elif cls == 'ByteMaskedArray':
+        this, mk = build_bytemasked(nc, pattern, variant)
+        atom = lambda i: BV(i)
+        short = '15ByteMaskedArray'
+    elif cls == 'BitMaskedArray':
+        this, a0 = build_bitmasked(nc, pattern, variant[0], variant[1])
+        atom = lambda i: BV(i)
+        short = '14BitMaskedArray'
+    else:
+        this, vals = build_unmasked(nc, n)
+        atom = lambda i: BV(i)
+        short = '13UnmaskedArray'
+    tail, adv = empty_tail_and_advanced(nc)
+    if headkind == 'at':
+        item = nc.m.record('sliceitem', {0: (nc.vptr_of('N7awkward7SliceAtE', 'SLC'), 8), 8: (nc.m.bv('at'), 8)}, const=True)
+    else:
+        item = nc.m.record('sliceitem', {0: (nc.vptr_of('N7awkward10SliceRangeE', 'SLC'), 8), 8: (nc.m.bv('start'), 8), 16: (nc.m.bv('stop'), 8), 24: (BV(1), 8)}, const=True)
+    head = nc.m.record('headptr', {0: (item, 8), 8: (NULL, 8)}, const=True)
+    nc.m.record('ret', {})
+    out = nc.m.call('_ZNK7awkward%s12getitem_nextERKSt10shared_ptrINS_9SliceItemEERKNS_5SliceERKNS_7IndexOfIlEE' % short, [Ptr('ret', 0), this, head, tail, adv])
+    obls = [('passing a slice item through does not raise', out.raised), ('the content is asked', z3.Not(z3.Or([pc for pc, h, t, a in seen] + [z3.BoolVal(False)])))]
+    for pc, h, t, a in seen:
+        same = z3.Or([g for g, q in nodeh.ptr_cases(h) if q.obj == 'sliceitem'] + [z3.BoolVal(False)]) if h is not None else z3.BoolVal(False)
+        obls.append(('the content receives the very same slice item', z3.And(pc, z3.Not(same))))
+    want = [NONE if pattern[i] else Elem(F(atom(i))) for i in range(n)]
+    rcell = nc.m.cell('ret', 0)
+    for g, res in (nodeh.decode_cases(nc, out.mem, rcell) if rcell is not None else []):
+        if res is None:
+            obls.append(('a result is returned', z3.And(g, z3.Not(out.raised))))
+        else:
+            obls += [(nm, z3.And(g, z3.Not(out.raised), c)) for nm, c in compare(value(res), want)]
+    def replay(model, ent):
+        ev = lambda t: model.eval(t, model_completion=True).as_signed_long()
+        if cls in ('IndexedOptionArray64', 'IndexedArray64'):
+            iv = [ev(x) for x in idx]
+            node = '%s %s ' % ('option64' if cls == 'IndexedOptionArray64' else 'indexed64', fullnative.ints(iv))
+        elif cls == 'ByteMaskedArray':
+            iv = [(-1 if pattern[i] else i) for i in range(n)]
+            node = 'bytemask %s %d ' % (fullnative.ints([ev(x) for x in mk]), 1 if variant else 0)
+        elif cls == 'BitMaskedArray':
+            iv = [(-1 if pattern[i] else i) for i in range(n)]
+            nbytes = (n + 7) // 8 or 1
+            node = 'bitmask %s %d %d %d ' % (fullnative.ints([model.eval(z3.Select(a0, BV(k_)), model_completion=True).as_long() for k_ in range(nbytes)]), 1 if variant[0] else 0, n, 1 if variant[1] else 0)
+        else:
+            iv = list(range(n))
+            node = 'unmasked '
+        lc = max([ev(nc.lencontent), n, 1] + [v + 1 for v in iv])
+        if lc > 60:
+            return False, 'content too long to replay', {}
+        # content: lc lists of two items each
+        head_ = 'i64 %s regular 2 %d ' % (fullnative.ints(range(2 * lc)), lc)
+        inner = [[2 * k_, 2 * k_ + 1] for k_ in range(lc)]
+        if headkind == 'at':
+            prog, exp = head_ + node + 'getitem 2 range NONE NONE NONE at 1', [None if v < 0 else inner[v][1] for v in iv]
+        else:
+            prog, exp = head_ + node + 'getitem 2 range NONE NONE NONE range 1 NONE 1', [None if v < 0 else inner[v][1:] for v in iv]
+        return akrun_check(prog, exp, '%s (valid entries -> content %s) sliced [:, %s]' % (cls, iv, '1' if headkind == 'at' else '1:'))
+    return mdischarge(nc.m, '%s::getitem_next(%s) passing through, pattern=%s variant=%s' % (cls, headkind, ''.join('N' if p else 'v' for p in pattern), variant), obls, [], replay=replay, prefer=[nc.lencontent <= 8],
+                      extra=dict(bounds='%d entries, missing pattern concrete (case split); index values, mask bytes, slice item values symbolic' % n))
+
+
+def jobs_option_getitem(tier):
+    js = []
+    pats = [(0, 1, 0), (0, 0)] if tier == 'quick' else [p for k in (1, 2, 3) for p in itertools.product((0, 1), repeat=k)]
+    for hk in ('at', 'range'):
+        for p in pats:
+            js.append((h_option_getitem, ('IndexedOptionArray64', p, None, hk), 600))
+            js.append((h_option_getitem, ('ByteMaskedArray', p, True, hk), 600))
+            js.append((h_option_getitem, ('BitMaskedArray', p, (True, False), hk), 600))
+            if not any(p):
+                js.append((h_option_getitem, ('IndexedArray64', p, None, hk), 600))
+                js.append((h_option_getitem, ('UnmaskedArray', p, None, hk), 600))
+    return js
